@@ -90,6 +90,26 @@ SEEDS = {
     "C14d-final-report-from-step-counter": ("C14", "a signal arriving during or after the last step: the closing report tests the step counter instead of the flag and says Finished", []),
     "C11d-multibunch-start-file-accepted": ("C11", "a start file written by a run with more than one bunch: no longer refused, the run silently starts from bunch 0 of the record", ["C17"]),
     "C15d-odd-grid-half-cell-grid-side": ("C15", "an odd grid size: the grid is moved by offset + 0.5 cells per kick, the particle by offset (third variant of the same one-line slip as C03c / C05d)", ["C03"]),
+    "C01e-fp-skips-columns-without-positive-cells": ("C01", "the damping/diffusion step on signed data with a grid column that holds negative but no positive cells: the column is taken for empty and zeroed", []),
+    "C02e-coefficient-memo-ignores-order": ("C02", "two interpolation orders used in one process and the same fractional offset requested across the hand-over: the memoised weights of the other order are returned", ["C01"]),
+    "C03e-quadratic-recentre-sign": ("C03", "--InterpolationPoints 3: the three-point stencil is re-centred for fractions above one half with the wrong sign of the new fraction (weights still sum to one, the first moment goes wrong)", ["C02", "C15"]),
+    "C04e-damping-time-zero-means-calculated": ("C04", "DampingTime exactly 0 (meant: no damping, no diffusion) with a start that is not the natural size: a full Fokker-Planck map with the calculated damping time is built", []),
+    "C06e-pad-without-clear-after-csr": ("C06", "updateCSR() before wakePotential() on the same object and the lowest filled bucket not 0: ghost bunch at position 0 (same slip as C18b / C07d, judged by C06's convolution)", ["C18"]),
+    "C07e-readback-mask-instead-of-modulo": ("C07", "a padded length that is not a power of two and not a multiple of the grid size (RoundPadding false with padding 1.5 or 2.5): the wake read-back index is masked with nmax-1 instead of taken modulo", ["C06"]),
+    "C08e-order1-ykick-uses-bunch0-table": ("C08", "--InterpolationPoints 1, more than one bunch and a per-bunch y-kick (wake): the whole-cell fast path reads bunch 0's table for every bunch", ["C02"]),
+    "C09e-shorthand-normalise-nan-for-empty-bucket": ("C09", "a filling pattern with a share of exactly zero whose bucket really holds no charge, renormalised through integrateAndNormalize(): the profile is scaled by 0/0", []),
+    "C10e-initial-xprojection-not-refreshed": ("C10", "a start from a file with RenormalizeCharge < 0: record 0 stores the default Gaussian's profile, not the projection of the stored phase space", ["C11"]),
+    "C05e-clamped-option-makes-wake-kick-linear": ("C05", "--InterpolateClamped true together with any wake: the wake kick map falls back to two-point interpolation, whose numerical diffusion heats the bunch where the wake is strong (energy spread 1.06-1.26)", []),
+    "C12e-dynrf-table-rebuilt-only-if-record-differs": ("C12", "RF phase modulation, an HDF5 output and two runs with different outstep: the kick table is rebuilt only if the queue front differs from the last record, and the record list is emptied by every output block", ["C19"]),
+    "C13e-input-files-resolved-next-to-config": ("C13", "an input file (impedance, start, tracking) given by a relative name that exists next to the parent config but not in the working directory, output elsewhere: the run uses the resolved path, the saved .cfg the raw name", []),
+    "C15e-applytoall-skips-order1": ("C15", "--InterpolationPoints 1 with tracking through applyToAll(): kick maps return before moving any particle (InterpolationType::none is 1, Identity uses 0)", []),
+    "C16e-freespace-axis-truncated-to-whole-harmonic": ("C16", "free-space CSR with a short frequency axis (f_max/f_rev small and not an integer): the axis top is truncated to a whole harmonic, every sample is low by (floor(r)/r)^(1/3)", []),
+    "C17e-nonlinear-dynrf-queue-one-period": ("C17", "a dynamic RF map (noise or modulation) with --LinearRF false and a run longer than one synchrotron period: the modulation queue holds StepsPerTs entries, front() on the empty queue", ["C19"]),
+    "C18e-loss-spectrum-tail-not-rewritten": ("C18", "an impedance that is exactly zero from some index below half the padded length on (a short user table alone) and a second wakePotential() on the same object: the tail of the loss spectrum keeps what the previous inverse transform left", ["C06"]),
+    "C19e-negative-amplitude-clamped-not-recorded": ("C19", "amplitude noise so large that 1 + noise < 0 for some step: the applied amplitude is clamped to 0, the record shows the negative factor", []),
+    "C20e-devnull-normalised-before-config-load": ("C20", "the special value /dev/null for --output or --InitialDistFile together with a config file that is actually loaded: notify() writes the literal string back after the normalisation ran", ["C13"]),
+    "C11e-final-phase-space-follows-save-cadence": ("C11", "a first leg run with --SavePhaseSpace k >= 2 whose number of output steps is not a multiple of k: the final block no longer always writes the phase space, the continuation silently starts from an older record", ["C10", "C14"]),
+    "C14e-inherited-sigint-ignore-honoured": ("C14", "the process inherits SIGINT as ignored (started as a background job of a non-interactive shell, or by a parent that ignores it): the handler is not installed, kill -INT does nothing", []),
     "C10-": ("C10", "", []),
     "C17-": ("C17", "", []),
 }
